@@ -1,87 +1,18 @@
-(* C01 / (5) translation validation, part 2: the form a REAL plan is translated to.
+(* C01 / (5) translation validation, part 2: small shared definitions.
 
-   A [dfield2] is one root field of the (normalised) client operation together with what the real
-   plan does for it: the client's sub-selection in the CLIENT's order, each top-level selection
-   tagged with who resolves it (false: the root fetch, true: the entity fetch at this field), and
-   the entity fetch (subgraph schema, entity type, representation fields).
-
-   [to_dfield] forgets the order (root part first, fetched part second): that is the [dfield] of
-   the plan theorem.  [client_sel2] is the client's field verbatim, so
-   [query_doc vdsM (map client_sel2 ds2) frags] is the operation the planner was given.
-   [model_requests] are the subgraph requests the model sends for the plan: the translation is
-   CHECKED by comparing them with the requests of the real plan and of real end-to-end runs. *)
+   The client's sub-selection under an entity-typed field is kept in the CLIENT's order, each
+   top-level selection tagged with who resolves it (false: the root fetch, true: the entity fetch).
+   [sel_untagged] / [sel_tagged] are the two parts; the real planner starts every entity selection
+   with a planner-added [__typename] ([tn_sel]). *)
 From Coq Require Import PeanoNat Lia.
 From Gv Require Import lib.Bytes lib.Json lib.Gql lib.Exec
-     C01.ProofsBase C01.ProofsFuel C01.ProofsSplit C01.ProofsSim C01.ProofsJoin C01.ProofsOverlap
-     C01.ProofsTwoStep C01.ProofsViol C01.ProofsCtxBase C01.ProofsCtx C01.ProofsTwoStepWf C01.ProofsPlanAlg
-     C01.ProofsPlan C01.ProofsPlanOk C01.ProofsTvStatic.
+     C01.ProofsBase C01.ProofsTwoStep.
 Open Scope N_scope.
-
-Record dfield2 := {
-  d2_alias : option name; d2_name : name; d2_args : list argument; d2_nn : bool;
-  d2_sel : list (bool * selection);
-  d2_fetch : option (schema * name * list name) }.
 
 Definition sel_untagged (ts : list (bool * selection)) : list selection :=
   map snd (filter (fun x => negb (fst x)) ts).
 Definition sel_tagged (ts : list (bool * selection)) : list selection :=
   map snd (filter (fun x => fst x) ts).
 
-Definition to_dfield (d : dfield2) : dfield :=
-  {| df_alias := d2_alias d; df_name := d2_name d; df_args := d2_args d; df_nn := d2_nn d;
-     df_selA := sel_untagged (d2_sel d);
-     df_fetch := match d2_fetch d with
-                 | Some (sub, T, ks) => Some {| ef_sub := sub; ef_T := T; ef_ks := ks; ef_sel := sel_tagged (d2_sel d) |}
-                 | None => None
-                 end |}.
-
-Definition client_sel2 (d : dfield2) : selection :=
-  SField (d2_alias d) (d2_name d) (d2_args d) [] (map snd (d2_sel d)).
-
-(* the client operation the translation stands for *)
-Definition client_doc (vdsM : list vardef) (frags : list fragment) (ds2 : list dfield2) : document :=
-  query_doc vdsM (map client_sel2 ds2) frags.
-
-(* ---- the subgraph requests of the model ---- *)
 Definition tn_sel : selection := key_sel s_typename.
-(* the real planner starts every entity selection with __typename *)
 Definition ent_sel (tn : bool) (selB : list selection) : list selection := if tn then tn_sel :: selB else selB.
-
-Inductive mreq :=
-| MRoot (sub : schema) (doc : document)
-| MEntity (key : name) (sub : schema) (doc : document) (repr_fields : list name).
-
-Definition model_requests (vdsM : list vardef) (frags : list fragment) (sc0 : schema) (tn : bool) (ds : list dfield) : list mreq :=
-  MRoot sc0 (query_doc vdsM (map root_sel ds) frags) ::
-  flat_map (fun d => match df_fetch d with
-                     | Some phi => [MEntity (df_key d) (ef_sub phi)
-                                            (entities_doc (rep_vd :: vdsM) (ef_T phi) (ent_sel tn (ef_sel phi)) frags)
-                                            (key_names (ef_ks phi))]
-                     | None => []
-                     end) ds.
-
-(* ---- the validator evaluated on a translated real plan ---- *)
-(* tags: root part first, fetched part second (client order == model order) *)
-Fixpoint tags_ordered (seen_true : bool) (ts : list (bool * selection)) : bool :=
-  match ts with
-  | [] => true
-  | (b, _) :: r => if b then tags_ordered true r else negb seen_true && tags_ordered seen_true r
-  end.
-
-Section TvCheck.
-  Variables (sc : schema) (frags : list fragment) (vdsM : list vardef) (supM : list (bytes * json)).
-  Variable sc0 : schema.
-  Variables (g0 kq : nat).
-  Variable decls : list (name * list name).
-  Variable rdecls : list rdecl.
-
-  Definition field2_shape_b (tn : bool) (d : dfield2) : bool :=
-    match d2_fetch d with
-    | None => forallb (fun x => negb (fst x)) (d2_sel d)
-    | Some _ => tags_ordered false (d2_sel d) && negb tn
-    end.
-
-  Definition tv_static_b (tn : bool) (ds2 : list dfield2) : bool :=
-    plan_static_b sc frags vdsM supM sc0 g0 kq decls rdecls (map to_dfield ds2) &&
-    forallb (field2_shape_b tn) ds2.
-End TvCheck.
